@@ -97,6 +97,8 @@ inductive LoginRes where
   | forbidden
   /-- 200 with a session cookie for the token -/
   | ok (tok : Nat)
+  /-- HTTP Basic credentials accepted: the request is let through, no session -/
+  | passed
   deriving DecidableEq, Repr
 
 def now32 (now : Nat) : Nat := (now / nsPerSec) % u32
@@ -324,10 +326,21 @@ def logoutF (st : St) (tok : Nat) (dbOK : Bool) : St :=
   { st with mem := st.mem.erase tok, db := if dbOK then st.db.erase tok else st.db }
 
 
-/-- optionalAuthThird without a session cookie: HTTP Basic credentials are
-checked by `findUser` directly — evaluated, not gated by the limiter, a
-failure is not counted. -/
-def basicAuth (st : St) (good : Bool) : Bool × St := (good, { st with evals := st.evals + 1 })
+/-- optionalAuthThird without a session cookie: HTTP Basic credentials.
+`fixB = false` (tree without /verif/fixes/c12/basic_auth_throttle.patch):
+`findUser` directly — evaluated, not gated by the limiter, a failure is not
+counted.  `fixB = true` (checkBasicAuth of the patch): the same gate and
+bookkeeping as handleLogin/newCookie, keyed by the TCP peer, no session. -/
+def basicAuthX (fixB : Bool) (st : St) (now : Nat) (r : Req) (good : Bool) : LoginRes × St :=
+  if !fixB then ((if good then .passed else .forbidden), { st with evals := st.evals + 1 })
+  else
+    match st.rl with
+    | none => ((if good then .passed else .forbidden), { st with evals := st.evals + 1 })
+    | some l =>
+      let (left, l') := l.check (checkAddr r) now
+      if left > 0 then (.tooMany (left / nsPerSec), { st with rl := some l' })
+      else if good then (.passed, { st with rl := some (l'.remove (countAddr r)), evals := st.evals + 1 })
+      else (.forbidden, { st with rl := some (l'.inc (countAddr r) now), evals := st.evals + 1 })
 
 /-! ### code level switch: the proposed repair of the uint32 horizon
 
